@@ -84,6 +84,12 @@ def make_ops(nspines, M):
     add('dumps:bad-reversed', lambda d, a: kp.dumps(d, **a), from_measure=3, to_measure=1)
     add('dumps:bad-include', lambda d, a: kp.dumps(d, **a), include={'PITCH'})
     add('dumps:bad-encoding', lambda d, a: kp.dumps(d, **a), encoding='nonsense')
+    # the options-object API: one ExportOptions instance handed to Exporter.export_string / kp.export (its snapshot is compared before/after)
+    add('export:options-default', lambda d, a: kp.Exporter().export_string(d, a['options']), options=kp.ExportOptions())
+    add('export:options-ekern', lambda d, a: kp.Exporter().export_string(d, a['options']), options=kp.ExportOptions(kern_type=E.eKern, spine_types=['**kern']))
+    add('export:options-deprecated-api', lambda d, a: kp.export(d, a['options']), options=kp.ExportOptions(token_categories=[c for c in TC if c != TC.DECORATION]))
+    add('export:options-reused-from-smaller-document', lambda d, a: (kp.Exporter().export_string(kp.loads('**kern\n*clefG2\n=1\n4c\n*-\n')[0], a['options']),
+                                                                    kp.Exporter().export_string(d, a['options']))[1], options=kp.ExportOptions())
     add('tokens', lambda d, a: toks(d.get_all_tokens()))
     add('token-encodings', lambda d, a: d.get_all_tokens_encodings())
     add('unique', lambda d, a: toks(d.get_unique_tokens()))
@@ -118,7 +124,7 @@ def make_ops(nspines, M):
 def call(op, doc):
     name, fn, args = op
     import copy
-    a = {k: (copy.copy(v) if isinstance(v, (list, set, dict)) else v) for k, v in args.items()}
+    a = {k: (copy.copy(v) if isinstance(v, (list, set, dict)) else (copy.deepcopy(v) if v.__class__.__name__ == 'ExportOptions' else v)) for k, v in args.items()}
     before = SN.digest([a])
     try:
         r = ('ok', repr(fn(doc, a)))
